@@ -1165,7 +1165,16 @@ class SInt:
 
     def __rfloordiv__(self, o): raise EngineError("division by a symbolic integer")
     def __rmod__(self, o): raise EngineError("modulo by a symbolic integer")
-    def __truediv__(self, o): raise EngineError("float division")
+    def __truediv__(self, o):
+        # int / power of two: a C double.  Kept as (numerator, exponent); int() of it applies IEEE-754 rounding faithfully.
+        if isinstance(o, int) and not isinstance(o, bool) and o > 0 and (o & (o - 1)) == 0:
+            num = self
+            if num.lo < 0:
+                if EX.is_sat(num._cmp_expr(0, "lt")):
+                    raise EngineError("float division of a possibly negative integer")
+                num = SInt(num.e, 0, num.hi, num.w)     # proved non-negative on this path
+            return SFloat(num, o.bit_length() - 1)
+        raise EngineError("float division")
     def __pow__(self, o): raise EngineError("pow")
 
     def _bit(self, o, op):
@@ -1241,9 +1250,59 @@ class SInt:
         raise EngineError("bit_length of a symbolic integer")
 
 
+class SFloat:
+    """The C double nearest (round-half-even) to a non-negative symbolic integer, divided by 2**k (exact in binary floating
+    point).  Only int() is supported: truncation of that double."""
+    __slots__ = ("num", "k")
+
+    def __init__(self, num, k):
+        self.num, self.k = num, k
+
+    def to_int(self):
+        n, k = self.num, self.k
+        if n.hi >= (1 << 1000):
+            raise EngineError("float overflow range")
+        maxbits = n.hi.bit_length()
+        W = maxbits + 2
+        bv = n.ubv(W)
+        if maxbits <= 53:
+            return SInt.mk(z3.LShR(bv, z3.BitVecVal(k, W)) if k < W else z3.BitVecVal(0, W), n.lo >> k, n.hi >> k)
+        # case split on the bit length L of the numerator (the conversion int -> double rounds to 53 significant bits)
+        L = None
+        for cand in range(maxbits, 53, -1):
+            if EX.branch(z3.UGE(bv, z3.BitVecVal(1 << (cand - 1), W))):
+                L = cand
+                break
+        if L is None:
+            return SInt.mk(z3.LShR(bv, z3.BitVecVal(k, W)), 0, min(n.hi, (1 << 53) - 1) >> k)
+        sh = L - 53
+        q = z3.LShR(bv, z3.BitVecVal(sh, W))
+        rem = bv & z3.BitVecVal((1 << sh) - 1, W)
+        half = z3.BitVecVal(1 << (sh - 1), W)
+        up = z3.Or(z3.UGT(rem, half), z3.And(rem == half, z3.Extract(0, 0, q) == 1))
+        q2 = z3.If(up, q + 1, q)
+        rounded = q2 << z3.BitVecVal(sh, W)          # may be 2**L exactly: still fits W bits
+        val = z3.LShR(rounded, z3.BitVecVal(k, W)) if k < W else z3.BitVecVal(0, W)
+        return SInt.mk(val, 0, (1 << (L + 1)) >> k)
+
+    def __repr__(self):
+        return "SFloat(%r / 2**%d)" % (self.num, self.k)
+
+
 # --------------------------------------------------------------------------- conversions
 def bits_of(x, width):
     """'{:0<width>b}'.format(x) for a symbolic 0 <= x < 2**width (else EngineError)."""
+    if x.lo < 0:
+        raise EngineError("binary rendering of a possibly negative integer")
+    if x.hi >= (1 << width):
+        # the value may need more than `width` digits (format pads, it never truncates): fork on the actual length
+        for total in range(x.hi.bit_length(), width, -1):
+            if EX.branch(x._cmp_expr(1 << (total - 1), "ge")):
+                width = total
+                x = SInt(x.e, 1 << (total - 1), min(x.hi, (1 << total) - 1), x.w)
+                break
+        else:
+            x = SInt(x.e, x.lo, (1 << width) - 1, x.w)
     bv = x.ubv(width)
     cs = []
     for i in range(width - 1, -1, -1):
@@ -1319,9 +1378,64 @@ def _digit_val(c, base):
     return valid, e
 
 
+def _digits_value(vals, b):
+    """value of a digit sequence (ints / SInt / raw CW-bit digit values) in base b as SInt or int"""
+    n = len(vals)
+    if all(isinstance(v, int) for v in vals):
+        r = 0
+        for v in vals:
+            r = r * b + v
+        return r
+    if n == 1 and isinstance(vals[0], SInt):
+        return vals[0]
+    vals = [v.ubv(CW) if isinstance(v, SInt) else v for v in vals]
+    if b == 2:
+        parts = [z3.BitVecVal(v, 1) if isinstance(v, int) else z3.Extract(0, 0, v) for v in vals]
+        bv = z3.Concat(*parts) if n > 1 else parts[0]
+        return SInt.mk(z3.ZeroExt(1, bv), 0, (1 << n) - 1)
+    if b == 16:
+        parts = [z3.BitVecVal(v, 4) if isinstance(v, int) else z3.Extract(3, 0, v) for v in vals]
+        bv = z3.Concat(*parts) if n > 1 else parts[0]
+        return SInt.mk(z3.ZeroExt(1, bv), 0, (1 << (4 * n)) - 1)
+    hi = 10 ** n - 1
+    w = max(_fit(0, hi), CW + 1)
+    acc = z3.BitVecVal(0, w)
+    for v in vals:
+        d = z3.BitVecVal(v, w) if isinstance(v, int) else z3.ZeroExt(w - CW, v)
+        acc = acc * 10 + d
+    return SInt.mk(acc, 0, hi)
+
+
+_INT_TOL = {}
+
+
+def _int_tolerated(b):
+    """non-digit characters (< 256) that can occur somewhere in a literal the real int(..., b) accepts"""
+    if b not in _INT_TOL:
+        out = set()
+        for c in range(256):
+            ch = chr(c)
+            try:
+                int(ch, b)
+                continue
+            except ValueError:
+                pass
+            for lit in ("1" + ch, ch + "1", "1" + ch + "1", "0" + ch + "1"):
+                try:
+                    int(lit, b)
+                    out.add(c)
+                    break
+                except ValueError:
+                    pass
+        _INT_TOL[b] = frozenset(out)
+    return _INT_TOL[b]
+
+
 def sym_int(x=0, base=None):
     if isinstance(x, SInt):
         return x
+    if isinstance(x, SFloat) and base is None:
+        return x.to_int()
     if isinstance(x, SStr):
         x._noatom("int()")
         if x.concrete():
@@ -1330,55 +1444,49 @@ def sym_int(x=0, base=None):
         if b not in (2, 10, 16):
             raise EngineError("int(str, base=%r)" % base)
         cs = list(x.cs)
-        # CPython accepts surrounding whitespace, sign, underscores and (base 16) an 0x prefix.  The callers in
-        # scope pass digit strings; any symbolic character outside the digit set takes the ValueError path below,
-        # except for the characters CPython would tolerate -- those are refused as un-modelled.
+        # CPython accepts surrounding whitespace, a sign, single underscores between digits and (bases 2, 16) a prefix.
+        # Characters are classified digit / other-character-that-can-occur-in-a-valid-literal (forked to its concrete
+        # value) / invalid; with the non-digits concrete, validity depends on the positions only and is decided by the
+        # real int() on a skeleton; prefixes (0x, 0b) are refused as un-modelled.
         if not cs:
-            raise ValueError("invalid literal for int() with base %d: ''" % b)
-        tolerated = set(WS) | {ord("+"), ord("-"), ord("_")} | ({ord("x"), ord("X")} if b == 16 else set()) | \
-            ({ord("b"), ord("B")} if b == 2 else set())
-        vals = []
+            raise ValueError("invalid literal for int() with base %d: ''" % b)  # passthrough
+        tolerated = _int_tolerated(b)
+        kinds = []
         for c in cs:
             if isinstance(c, int):
                 try:
-                    vals.append(int(chr(c), b))
+                    kinds.append(("d", int(chr(c), b)))
                 except ValueError:
                     if c in tolerated:
-                        raise EngineError("int() literal with sign/space/underscore/prefix")
-                    raise ValueError("invalid literal for int() with base %d" % b)
+                        kinds.append(("c", c))
+                    else:
+                        raise ValueError("invalid literal for int() with base %d" % b)  # passthrough
             elif c.get_id() in CHAR_DIGIT and CHAR_DIGIT[c.get_id()][1].hi < b:
-                vals.append(CHAR_DIGIT[c.get_id()][1])
+                kinds.append(("d", CHAR_DIGIT[c.get_id()][1]))
             else:
                 valid, v = _digit_val(c, b)
                 if not EX.branch(valid):
                     if EX.branch(in_set_expr(c, tolerated)):
-                        raise EngineError("int() literal with sign/space/underscore/prefix")
-                    raise ValueError("invalid literal for int() with base %d" % b)
-                vals.append(v)
-        n = len(vals)
-        if n == 1 and isinstance(vals[0], SInt):
-            return vals[0]
-        vals = [v.ubv(CW) if isinstance(v, SInt) else v for v in vals]
-        if b == 2:
-            parts = [z3.BitVecVal(v, 1) if isinstance(v, int) else z3.Extract(0, 0, v) for v in vals]
-            bv = z3.Concat(*parts) if n > 1 else parts[0]
-            return SInt.mk(z3.ZeroExt(1, bv), 0, (1 << n) - 1)
-        if b == 16:
-            parts = [z3.BitVecVal(v, 4) if isinstance(v, int) else z3.Extract(3, 0, v) for v in vals]
-            bv = z3.Concat(*parts) if n > 1 else parts[0]
-            return SInt.mk(z3.ZeroExt(1, bv), 0, (1 << (4 * n)) - 1)
-        hi = 10 ** n - 1
-        w = max(_fit(0, hi), CW + 1)
-        acc = z3.BitVecVal(0, w)
-        for v in vals:
-            d = z3.BitVecVal(v, w) if isinstance(v, int) else z3.ZeroExt(w - CW, v)
-            acc = acc * 10 + d
-        return SInt.mk(acc, 0, hi)
+                        kinds.append(("c", EX.fork_values(c, sorted(tolerated))))
+                    else:
+                        raise ValueError("invalid literal for int() with base %d" % b)  # passthrough
+                else:
+                    kinds.append(("d", v))
+        negative = False
+        if any(k == "c" for k, _ in kinds):
+            if any(k == "c" and chr(v) in "xXbBoO" for k, v in kinds):
+                raise EngineError("int() literal with a base prefix")
+            skeleton = "".join("1" if k == "d" else chr(v) for k, v in kinds)
+            int(skeleton, b)  # passthrough (ValueError of the real int() on the literal's shape)
+            negative = skeleton.strip().startswith("-")
+        vals = [v for k, v in kinds if k == "d"]
+        r = _digits_value(vals, b)
+        return -r if negative else r
     if hasattr(x, "_ip") and isinstance(getattr(x, "_ip"), SInt) and base is None:
         return x._ip  # ipaddress objects: __int__ returns self._ip
     if base is None:
-        return int(x)
-    return int(x, base)
+        return int(x)  # passthrough
+    return int(x, base)  # passthrough
 
 
 def sym_str(x=""):
